@@ -897,6 +897,7 @@ def gen_c16b(rng: random.Random) -> Dict[str, Any]:
                 e["invalid"] = True
             if rng.random() < 0.4:
                 e["args"] = [rng.randint(0, 3)]
+                e["args_tuple"] = rng.random() < 0.4
             if rng.random() < 0.3:
                 e["kwargs"] = {"k": rng.randint(0, 3)}
             if rng.random() < 0.2:
@@ -909,7 +910,7 @@ def gen_c16b(rng: random.Random) -> Dict[str, Any]:
     if rng.random() < 0.25:
         late = {"name": "lt_late", "cron": rng.choice(CRONS), "time_us": rng.choice(times)}
     return {"mode": "label_source", "tasks": tasks, "fire_seed": rng.randint(0, 10 ** 9), "nfire": nfire,
-            "src_startup": rng.random() < 0.5, "late_task": late,
+            "src_startup": rng.random() < 0.5, "late_task": late, "concurrent_list": rng.random() < 0.3,
             # relist: list again before every firing; otherwise fire several schedules of one listing (what the
             # scheduler loop does when several one-shots are due in the same poll)
             "relist": rng.random() < 0.5,
@@ -959,6 +960,8 @@ def run_c16b(spec: Dict[str, Any]) -> "tuple[List[Violation], Any]":
             for k in ("args", "kwargs", "labels"):
                 if k in e:
                     d[k] = copy.deepcopy(e[k])
+            if e.get("args_tuple") and "args" in d:
+                d["args"] = tuple(d["args"])  # declared as a tuple, as Python programmers write argument lists
             sched.append(d)
         fn = lambda: None  # noqa: E731
         fn.__name__ = t["name"]
@@ -1044,7 +1047,31 @@ def run_c16b(spec: Dict[str, Any]) -> "tuple[List[Violation], Any]":
                 if not spec.get("relist", True):
                     pending_batch = [x for x in ones if x is not s]
                 before = copy.deepcopy(declared)
-                await sch.on_ready(src, s)
+                if spec.get("concurrent_list") and rng.random() < 0.5:
+                    # the scheduler loop lists the sources while sends of the previous minute are still going out: a
+                    # listing taken meanwhile shows the declared entries as they were before or after the removal
+                    ms_before = expected_multiset()
+                    k_ticks = rng.randint(0, 7)
+
+                    async def _fire_later() -> None:
+                        for _ in range(k_ticks):
+                            await asyncio.sleep(0)
+                        await sch.on_ready(src, s)
+
+                    ft = asyncio.ensure_future(_fire_later())
+                    listed2 = await src.get_schedules()
+                    await ft
+                    ms_after = expected_multiset()
+                    got2: Counter = Counter()
+                    for s2 in listed2:
+                        got2[repr((s2.task_name, s2.cron, s2.time, jsonable(s2.args), jsonable(s2.kwargs), s2.cron_offset,
+                                   sorted((k, repr(x)) for k, x in s2.labels.items() if k != "schedule")))] += 1
+                    if got2 != ms_before and got2 != ms_after:
+                        v.append(Violation("label-source-listing-torn", f"a listing taken while {s.task_name}@{s.time} fired shows {sum(got2.values())} entries: neither the "
+                                           f"{sum(ms_before.values())} declared before nor the {sum(ms_after.values())} declared after the removal"))
+                        return
+                else:
+                    await sch.on_ready(src, s)
                 obs["fired"].append((s.task_name, str(s.time)))
                 # model: exactly one entry of that task with that time disappears, nothing else changes
                 for name, sched in before.items():
